@@ -439,6 +439,18 @@ func runC03(c *Ctx) {
 			case g == makeVal:
 				if k, ok := constInt(call.Call.Args[1]); ok {
 					got["kind:"+kindName[k]] = got["kind:"+kindName[k]].union(set)
+				} else if tab, idx, isOK, field := tableLookup(p, call.Call.Args[1]); tab != nil && !isOK && field == "" && sameScrutinee(stripChange(idx), scr) {
+					// the kind is read from a table indexed by the first byte: entry i gives its kind for byte i
+					for _, e := range tab.entries {
+						kc, isC := e.val.(*ssa.Const)
+						ki, okK := constant.Int64Val(e.key)
+						if !isC || !okK || kc.Value == nil {
+							continue
+						}
+						if kv, okV := constant.Int64Val(kc.Value); okV {
+							got["kind:"+kindName[kv]] = got["kind:"+kindName[kv]].union(set.intersectRange(ki, ki))
+						}
+					}
 				}
 			case strings.HasPrefix(g.Name(), "read") && g.Signature.Recv() != nil:
 				got["call:"+g.Name()] = got["call:"+g.Name()].union(set)
